@@ -483,6 +483,16 @@ Lemma ok_check_commands : forall e s, S_ok s -> S_ok (check_commands e s).
 Proof. intros; unfold check_commands; apply ok_check_loop; assumption. Qed.
 
 (* ---- compaction ---- *)
+Lemma Forall_cluster_before : forall n res cl,
+  Forall entry_ok res -> Forall vid cl -> Forall vid (cluster_before n res cl).
+Proof.
+  intros n res; unfold cluster_before. induction res as [|en res IH]; intros cl Hr Hc; cbn [fold_left]; [exact Hc|].
+  inversion Hr; subst. apply IH; [assumption|].
+  destruct (membership_of (ecmd en)) as [[a x]|] eqn:E; [|exact Hc].
+  destruct (self_is x n); [exact Hc|].
+  destruct a; [apply Forall_sdel; exact Hc | apply Forall_sadd; [eapply membership_vid; eauto | exact Hc]].
+Qed.
+
 Lemma ok_try_compact : forall e s, S_ok s -> S_ok (try_compact e s).
 Proof.
   intros e s H; unfold try_compact; cbv zeta.
@@ -503,12 +513,13 @@ Proof.
   pose proof H0 as ((O1 & O2 & O3 & _) & _).
   assert (Forall entry_ok (get_entries (log (nd Y)) (Some (applied (nd Y) - 1)) (Some 2) None)) as HG
     by (apply Forall_get_entries; exact O3).
-  destruct (get_entries _ _ _ _) as [|e0 [|e1 r]]; try exact H0.
+  destruct (get_entries (log (nd Y)) (Some (applied (nd Y) - 1)) (Some 2) None) as [|e0 [|e1 r]]; try exact H0.
   destruct (opt_eqb _ _); [exact H0|].
   apply ok_upd; [|exact H0]. intros n Hn. apply node_ok_sr; [|exact Hn].
   destruct Hn as (_ & _ & _ & _ & _ & (Y1 & Y2 & Y3)). split; [|split; [exact Y2 | exact Y3]].
   cbn. inversion HG as [|? ? G0 G1]; subst. inversion G1; subst.
   split; [assumption|]. split; [assumption|].
+  apply Forall_cluster_before; [apply Forall_rev; apply Forall_get_entries; exact O3|].
   destruct (self (nd Y)) as [i|] eqn:Es; [apply Forall_sadd; [apply O2; reflexivity | exact O1] | exact O1].
 Qed.
 
